@@ -3,6 +3,9 @@ import math
 from fractions import Fraction as F
 from core import Stream, fl, coq_list
 
+import genmodels
+generated_model = genmodels.geometry_generated_model      # second tie: the geometry kernels translated from the source on every run and proved equal to the model
+
 PROP = 'C20'
 THEOREM_FILE = 'Props/C20.v'
 NOTES = ['the float instance (PrimFloat) of the generic model is compared bit for bit with CPython; the theorems are about the real instance of the same Gallina term',
